@@ -5,12 +5,13 @@ mod num;
 mod proj;
 mod rt;
 mod drv;
+mod tree;
 
 use serde_json::{json, Value};
 use std::io::{BufRead, BufWriter, Write};
 
 fn usage() -> ! {
-    eprintln!("usage: hx run <scenarios.ndjson> <trace-out.ndjson> | hx drive <driver> <out-dir> [args...] | hx smoke");
+    eprintln!("usage: hx run <scenarios.ndjson> <trace-out.ndjson> | hx tree <edges> <setup.json> <trace-out> <summary-out> | hx drive <driver> <out-dir> [args...] | hx smoke");
     std::process::exit(2);
 }
 
@@ -42,7 +43,7 @@ pub fn run_scenario(scn: &Value, w: &mut impl Write) -> std::io::Result<()> {
     }
     // reset event: full state
     let full = proj::project(&ex.env);
-    writeln!(w, "{}", json!({"i": 0, "scn": id, "ev": "reset", "a": {"op": "reset"}, "res": "ok", "code": 0, "label": "", "failed_ix": -1,
+    writeln!(w, "{}", json!({"i": 0, "scn": id, "ev": "reset", "a": {"op": "reset", "setup": scn.get("setup").cloned().unwrap_or(json!([]))}, "res": "ok", "code": 0, "err": "", "label": "", "failed_ix": -1,
         "ts": num::big_i(ex.env.world.clock.unix_timestamp as i128), "chg": Value::Object(full)}))?;
     ex.n = 1;
     for a in scn.get("actions").and_then(|x| x.as_array()).unwrap_or(&empty) {
@@ -72,6 +73,12 @@ fn main() {
             drv::drive(&args[2], &args[3], &args[4..]);
         }
         "smoke" => drv::smoke(),
+        "tree" => {
+            if args.len() < 6 {
+                usage();
+            }
+            tree::replay(&args[2], &args[3], &args[4], &args[5]);
+        }
         _ => usage(),
     }
 }
